@@ -412,8 +412,11 @@ def write_evidence(ctx: Ctx, obligations: List[Obligation], corr: List[CorrResul
         "wall_s": round(time.time() - ctx.t0, 2),
         "violations": violations,
     }
-    os.makedirs(os.path.join(VERIF, "evidence"), exist_ok=True)
-    p = os.path.join(VERIF, "evidence", f"{ctx.prop_id}.json")
+    # runs against a scratch copy of the repository (mutant / seeded-change self-tests) must not
+    # overwrite the evidence of the real tree
+    evdir = os.path.join(VERIF, "evidence") if os.path.realpath(REPO) == "/repo" else os.path.join(VERIF, "evidence", "replays", "alt")
+    os.makedirs(evdir, exist_ok=True)
+    p = os.path.join(evdir, f"{ctx.prop_id}.json")
     tmp = p + f".tmp{os.getpid()}"
     with open(tmp, "w") as f:
         json.dump(ev, f, indent=1, default=str)
